@@ -309,6 +309,7 @@ func c07Run(e *core.Env) {
 		rt(0)
 	}
 	e.SetBound("token_sequence_length", m)
+	c07LongFiles(e, try)
 	// (c) prefixes and single-token substitutions of a corpus of valid files
 	for _, file := range c07Corpus() {
 		if _, err, _ := parseText(file); err != nil {
@@ -337,6 +338,32 @@ func c07Run(e *core.Env) {
 	}
 }
 
+// c07LongFiles: (d) state that a parser accumulates over a whole file — every file of n
+// one-booking transactions (n <= N) followed by one transaction of k bookings (k <= 12),
+// and single transactions of up to 1100 bookings.
+func c07LongFiles(e *core.Env, try func(text, kind string)) {
+	const one = "2020-01-30 \"t\"\nA:B C:D 1 X\n\n"
+	maxN := core.Pick(e, 520, 1100)
+	for k := 1; k <= 12; k++ {
+		last := "2020-01-31 \"k\"\n" + strings.Repeat("A:B C:D 1 X\n", k) + "\n"
+		for n := 0; n <= maxN; n++ {
+			if e.Expired() {
+				return
+			}
+			if e.Take() {
+				try(strings.Repeat(one, n)+last, "long-file")
+				e.Count("distinct_nontrivial")
+			}
+		}
+	}
+	for _, k := range []int{13, 64, 255, 256, 257, 258, 511, 512, 513, 1024, 1100} {
+		if e.Take() {
+			try("2020-01-31 \"k\"\n"+strings.Repeat("A:B C:D 1 X\n", k)+"\n", "long-transaction")
+		}
+	}
+	e.SetBound("long_file_transactions", maxN)
+}
+
 func c07Replay(e *core.Env, data json.RawMessage) (bool, string) {
 	var cs c07Case
 	if err := json.Unmarshal(data, &cs); err != nil {
@@ -351,7 +378,7 @@ func init() {
 		ID: "C07", Level: "model_checking", Run: c07Run, Replay: c07Replay,
 		QuickBudget: 90 * time.Second, ThoroughBudget: 14 * time.Minute,
 		Rule: "(a) every string of <= n symbols over 24 byte classes (incl. invalid UTF-8, CR, multi-byte); (b) every sequence of <= m tokens over 29 tokens (dates, keywords, accounts, macros, decimals, quoted/unterminated strings, annotations, comment starters, CRLF, 100000-character tokens), concatenated directly and blank-separated; " +
-			"(c) every byte prefix and every single-field substitution of 10 valid corpus files; the real parser must not panic, errors must lie inside the input and render, trees must satisfy the range/cover invariants (reflective walk); non-trivial = length >= 3 or token/corpus cases",
+			"(c) every byte prefix and every single-field substitution of 10 valid corpus files; (d) every file of n <= 520 | 1100 one-booking transactions followed by a transaction of k <= 12 bookings, single transactions of up to 1100 bookings; the real parser must not panic, errors must lie inside the input and render, trees must satisfy the range/cover invariants (reflective walk); non-trivial = length >= 3 or token/corpus cases",
 		Assumptions: []string{"strings longer than the bounds are represented by the corpus mutations and pumped tokens only"},
 	})
 }
